@@ -126,6 +126,39 @@ func generate(rnd *rand.Rand, thorough bool) []*Prog {
 			for _, s := range overflowPairs {
 				mk("single", s[0], 0, acc(op, "p", 0, s[1], val()))
 			}
+			// seeded random effective addresses near the boundaries, random splits
+			nr := 6
+			if thorough {
+				nr = 60
+			}
+			for i := 0; i < nr; i++ {
+				var ea int64
+				switch rnd.Intn(5) {
+				case 0:
+					ea = int64(L) - int64(rnd.Intn(40))
+				case 1:
+					ea = int64(L) + int64(rnd.Intn(20)) - int64(w)
+				case 2:
+					ea = 1<<31 - 20 + int64(rnd.Intn(40))
+				case 3:
+					ea = int64(two32) - 1 - int64(rnd.Intn(40))
+				default:
+					ea = int64(rnd.Uint64() % two32)
+				}
+				if !u32ok(ea) {
+					continue
+				}
+				off := rnd.Uint64() % (uint64(ea) + 1)
+				if rnd.Intn(3) == 0 {
+					off = uint64(ea) - uint64(rnd.Intn(int(min64(uint64(ea), 64))+1))
+				}
+				mk("single", uint32(uint64(ea)-off), 0, acc(op, "p", 0, uint32(off), val()))
+				if i%3 == 0 {
+					mk("const", 0, 0, acc(op, "const", uint32(uint64(ea)-off), uint32(off), val()))
+					// a wrapping sum with the same low bits
+					mk("single", uint32(uint64(ea)-off)|0x80000000, 0, acc(op, "p", 0, uint32(off)|0x80000000, val()))
+				}
+			}
 		}
 		if sc.pages <= 2 && rnd.Intn(1) == 0 {
 			// a sample of singles on the Go-heap memory
@@ -191,7 +224,7 @@ func generate(rnd *rand.Rand, thorough bool) []*Prog {
 			// --- block merge / if-else merge: the intersection keeps the minimum bound
 			if p := l - w - 8; p >= 0 {
 				for c := uint32(0); c < 2; c++ {
-					for _, o := range [][3]uint32{{0, 8, 8}, {0, 8, 9}, {0, 9, 8}, {8, 0, 8}, {8, 8, 9}, {0, 0, 9}, {0, 0, 8}} {
+					for _, o := range [][3]uint32{{0, 8, 8}, {0, 8, 9}, {0, 9, 8}, {8, 0, 8}, {8, 8, 9}, {0, 0, 9}, {0, 0, 8}, {0, 9, 9}, {9, 0, 9}, {0, 65536, 65536}, {65536, 0, 65536}, {0, 0x7fffffff, 0x7fffffff}} {
 						mk("blockmerge", uint32(p), c, Stmt{K: "block", Body: []Stmt{acc(op, "p", 0, o[0], val()), {K: "brif", B: 0}, acc(op, "p", 0, o[1], val())}}, acc(op, "p", 0, o[2], val()))
 						mk("ifelse", uint32(p), c, Stmt{K: "if", Body: []Stmt{acc(op, "p", 0, o[0], val())}, Else: []Stmt{acc(op, "p", 0, o[1], val())}}, acc(op, "p", 0, o[2], val()))
 						mk("nested", uint32(p), c, Stmt{K: "block", Body: []Stmt{acc(op, "p", 0, o[0], val()),
